@@ -791,7 +791,8 @@ M("C11", "M11-7-only-a-missing-positions-file-is-tolerated", dict(
     kind="guard", subject_result=True,
     subject=r"index::segment::Segment::open_read$",
     required=("directory::error::OpenReadError", "FileDoesNotExist", "src/directory/error.rs"),
-    sites=[dict(body=r"^index::segment_reader::" + I + r"::open_with_custom_alive_set$", mode="before_call", target=r"CompositeFile::empty$", expect=1)]),
+    # wherever in the segment reader the empty composite is substituted (it may move into a helper)
+    sites=[dict(body=r"^index::segment_reader::", mode="before_call", target=r"CompositeFile::empty$", expect_min=1)]),
   title="SegmentReader::open: the positions file may be absent, nothing else is tolerated - the empty composite is only substituted when the preceding open_read failed with OpenReadError::FileDoesNotExist; an I/O error or an incompatible file is returned to the caller (reload, merge, advance_deletes)",
   functions=["SegmentReader::open_with_custom_alive_set"], bounds="every path to CompositeFile::empty(); values the executor does not model are unconstrained")
 
